@@ -19,6 +19,7 @@ type Plan struct {
 	Bystander  int            `json:"bystander_ops,omitempty"`   // C11: an extra client works on an LRU cache of its own meanwhile (instances must not share state)
 	Young      bool           `json:"young_reference,omitempty"` // the references are cross-checked against a brand-new oracle process that sees the calls in reverse order
 	FreshAt    int            `json:"fresh_at,omitempty"`        // 1-based index of the call of client 0 whose reference is recomputed in a fresh OS process of its own (0: none)
+	ExecPanics bool           `json:"exec_panics,omitempty"`     // calls whose solo result is a panic are executed too (and must panic the same way); user-supplied functions that panic are part of the vocabulary
 	Repeat     int            `json:"repeat,omitempty"`          // > 1: the calls of client 0 from RepeatFrom on are executed that many times in all (long histories: counters that wrap, tables that fill)
 	RepeatFrom int            `json:"repeat_from,omitempty"`
 	Cfg        simsync.Config `json:"cfg"`
@@ -169,7 +170,13 @@ func genStructCall(r *detsim.Rand, types []int, overrides bool) Call {
 }
 
 func genAnyCall(r *detsim.Rand, types []int) Call {
-	switch r.Weighted([]int{55, 10, 3, 7, 3, 6, 2, 4, 3, 4, 3, 4, 3, 3, 2, 3}) {
+	switch r.Weighted([]int{55, 10, 3, 7, 3, 6, 2, 4, 3, 4, 3, 4, 3, 3, 2, 3, 4, 2, 2}) {
+	case 16:
+		return Call{Entry: EHelper, Val: r.Intn(NHelpers)}
+	case 17:
+		return Call{Entry: EMapRetry, Val: r.Intn(15), Rule: r.Intn(6), Shape: r.Intn(3), Fn: r.Intn(2)}
+	case 18:
+		return Call{Entry: EUrlRetry, Val: r.Intn(len(urls)), Rule: r.Intn(len(urlRules)), Shape: r.Intn(2), Fn: r.Intn(2)}
 	case 15:
 		return Call{Entry: EDumpJson, Type: types[r.Intn(len(types))], Val: r.Intn(12), Shape: r.Intn(2)}
 	case 12:
